@@ -9,7 +9,7 @@ LEVEL = "exploration"
 RULE = ("Real loopback TCP. (a) Hypothesis-generated peer scripts (1-10 fragments of 1..70000 bytes with pauses 0..40 ms, request sizes 1..1 MiB, connect timeout None/1/5 s, "
         "SO_RCVBUF None/4 KiB/64 KiB, idle timeout 50..300 ms, optional close()+connect()) against TcpTransport and TcpTransportAsync: each bulk_read(n) returns <= n bytes; the concatenation of "
         "all reads == the peer's byte stream; a read with nothing pending raises TcpTimeoutException after >= 0.8*timeout of wall time and the data the peer sends afterwards arrives intact; "
-        "bulk_write reaches the peer; close(); close() is harmless; connect() after close() works. (b) generated whole sessions (connect, shell/list/stat/pull/push ...) through AdbDevice(TcpTransport) / "
+        "bulk_write reaches the peer -- also 100 KB / 1 MiB written through SO_SNDBUF=4096 to a slow reader with SO_RCVBUF=4096: the bytes the transport reported as sent (looping over its returned counts) are exactly what the peer receives after close(); close(); close() is harmless; connect() after close() works. (b) generated whole sessions (connect, shell/list/stat/pull/push ...) through AdbDevice(TcpTransport) / "
         "AdbDeviceAsync(TcpTransportAsync) against a socket server running the device simulator (server-side fragmentation 1..64 KiB): results == the model's (== in-memory) results. "
         "Non-trivial: >= 2 reads (a) / >= 2 operations (b). Only lower time bounds are asserted; a wall-clock watchdog expiry is 'inconclusive'. Distinct = case hash.")
 ASSUMPTIONS = ["kernel loopback TCP", "wall-clock: only lower bounds asserted (>= 0.8 * timeout)", "device simulator behind a socket for part (b)"]
